@@ -102,6 +102,12 @@ NextPhase(e, p) ==
       i  == CHOOSE j \in 1..Len(ps) : ps[j] = p
   IN IF i < Len(ps) THEN ps[i + 1] ELSE p
 
+\* the phases at or after p: an accepted input may carry the connection forward (one ICE check can connect), never back
+AtOrAfter(e, p) ==
+  LET ps == Entry(e).phases
+      i  == CHOOSE j \in 1..Len(ps) : ps[j] = p
+  IN {ps[j] : j \in i..Len(ps)}
+
 Terminal   == {"failed", "closed"}
 \* every state an endpoint may be observed in
 Modelled(e) == PhasesOf(e) \cup (IF Entry(e).kind = "endpoint" THEN Terminal ELSE {})
@@ -190,8 +196,8 @@ Progress ==
 
 \* one mutated input is delivered.  The contract: the step is enabled whatever the state,
 \* it returns ("total" abstracts value-or-error), and the endpoint is afterwards in a modelled
-\* state: where it was, one genuine phase further (the mutation may have produced an acceptable
-\* message), or a terminal state.
+\* state: where it was, further on (the mutation may have produced an acceptable message), or a
+\* terminal state - never an earlier phase.
 Feed(c) ==
   LET l == Leaves(c.tpl)[c.idx] IN
   /\ nfeeds < MaxFeeds
@@ -201,7 +207,7 @@ Feed(c) ==
   /\ IF Crashes(ent, c.tpl, l, c.mut)
      THEN /\ phase' = "crashed"
           /\ last' = [kind |-> "feed", tpl |-> c.tpl, field |-> l.n, idx |-> c.idx, mut |-> c.mut, res |-> "panic", from |-> phase]
-     ELSE /\ phase' \in ({phase, NextPhase(ent, phase)} \cup
+     ELSE /\ phase' \in (AtOrAfter(ent, phase) \cup
                          (IF Entry(ent).kind = "endpoint" THEN Terminal ELSE {}))
           /\ last' = [kind |-> "feed", tpl |-> c.tpl, field |-> l.n, idx |-> c.idx, mut |-> c.mut, res |-> "total", from |-> phase]
   /\ hist' = Append(hist, [op |-> "feed", tpl |-> c.tpl, field |-> l.n, mut |-> c.mut])
